@@ -64,6 +64,28 @@ def gen_table():
     return rc, out.strip()
 
 
+def source_tie(run):
+    """Regenerate coq/gen/SrcGen.v from the current mz.rs / poisson.rs constants and check (kernel, `reflexivity`) that the
+    hand-written models are that translation.  Returns True when established.  A refusal or a mismatch is not a violation
+    by itself (a harmless rewrite can cause it): the differential correspondence remains the tie, searched 5x deeper."""
+    rc, out, _ = sh([sys.executable, os.path.join(VERIF, "tools", "gen_src.py")], cwd=VERIF, timeout=120)
+    detail = out.strip().splitlines()[-1] if out.strip() else ""
+    ok = rc == 0
+    if ok:
+        rc2, out2, _ = make(["proofs/SrcTie.vo"])
+        ok = rc2 == 0
+        if not ok:
+            detail = "proofs/SrcTie.v no longer checks: " + "\n".join(out2.strip().splitlines()[-6:])
+    run.cov["source_level_tie"] = {"established": ok, "what": "coq/model/Mz.v (PROTON, mass_charge_ratio, neutral_mass) and Poisson.v's NEUTRON_SHIFT / "
+                                   "LAMBDA_FACTOR are definitionally the translation of the current src/mz.rs and poisson.rs constants (tools/gen_src.py)",
+                                   "detail": detail}
+    if ok:
+        run.oblige("source-level tie: the mz.rs model is the translation of the current source (regenerated, reflexivity)", True, detail)
+    elif run.scale == 1:
+        raise ExtendSearch({"broken": "source-level tie", "detail": detail})
+    return ok
+
+
 def ensure_makefile():
     mk = os.path.join(COQ, "Makefile")
     cp = os.path.join(COQ, "_CoqProject")
